@@ -72,15 +72,12 @@ def handleBlock : Handler
         else "ok"
       if pred != "ok" then pred else
       let key := sortKey (c2d c cf debt dcf)
-      let E1 : Env := { P := { (default : Params) with colls := [{ (default : CollParam) with cf := cf }], debtCf := dcf }, accts := [] }
+      let E1 : Env := { P := { (default : Params) with colls := [{ (default : CollParam) with cf := cf, active := true }], debtCf := dcf }, accts := [] }
       let c1 : Cdp := { owner := 0, ty := 0, coll := c, prin := debt, fees := 0, updated := 0, ifac := Dec.one }
       let m := blockSelects key ⟨price⟩ ⟨L⟩ && !blockSkips E1 c1 ⟨price⟩ ⟨L⟩
       if m != seized then mismatch "blockSeizes" (showBool m) (showBool seized) else "ok"
     | _, _, _, _, _, _, _ => badInput "parse"
   | _ => badInput "arity"
-
-/-- debt of a CDP including the interest accrued up to the global factor of state `g` -/
-def syncedDebt (g : St) (c : Cdp) : Int := c.prin + c.fees + (newInterest g c).getD 0
 
 def crOf (u : U) (c : Cdp) (coll debt : Int) (price : Option Dec) : Option Dec :=
   match price with
@@ -97,7 +94,8 @@ def preds (u : U) (kind : String) (args : List Int) (pre post : Obs) (tol : List
   let E := u.E
   let sPre := stOf pre
   let sPost := stOf post
-  let cpOf := fun (ty : Nat) => E.P.colls[ty]?
+  -- the parameters IN FORCE at this step; a type that is not listed has none (`GetCollateral`)
+  let cpOf := fun (ty : Nat) => activeColl E ty
   let gone := pre.cdps.filter (fun e => (post.cdps.lookup e.1).isNone)
   -- (1) user gate + feed gate
   let userPart : Option (String × String) :=
@@ -159,7 +157,7 @@ def preds (u : U) (kind : String) (args : List Int) (pre post : Obs) (tol : List
     match kind, args with
     | "begin", _ :: skip :: _ =>
       if skip != 0 then none else
-      (List.range E.P.colls.length).findSome? (fun ty =>
+      E.P.order.findSome? (fun ty =>
         match cpOf ty with
         | none => none
         | some cp =>
@@ -230,8 +228,9 @@ def preds (u : U) (kind : String) (args : List Int) (pre post : Obs) (tol : List
             let order := (goneT.map (fun e => ((ty, sortKey (c2d e.2.coll cp.cf (syncedDebt g e.2) E.P.debtCf), e.1), syncedDebt g e.2))).foldl
               (fun (l : List (Entry × Int)) x => (l.filter (fun y => eLt y.1 x.1)) ++ [x] ++ (l.filter (fun y => !eLt y.1 x.1))) []
             some (order.foldl (fun (p : Int × Int) x => (p.1 - minI x.2 p.1, p.2 + minI x.2 p.1)) (avail + minted, tot))
-        | _, _ => none
-      ((List.range E.P.colls.length).foldl step (some (lookup3 pre.bal 0 1, 0))).map (·.2)
+        | some acc, none => some acc          -- not listed: not visited by the begin blocker
+        | none, _ => none
+      (E.P.order.foldl step (some (lookup3 pre.bal 0 1, 0))).map (·.2)
   match expected with
   | none => none
   | some ex =>
